@@ -26,8 +26,9 @@ approach / chain, tol 1e-6..1e-12, k*T 1e-3..20, m0 1e-3..1): largest global err
   CVODE order 4 / 3 / 2 / 1 (single integration)             69 / 390 / 3 000 / 33 000  (error ~ tol^(q/(q+1)))
   CVODE with -cvode_steps <= 50 (restart path)               up to 1.5e10 (0.2 * m0), silently; none seen at >= 70
 => two known findings (see replays/C12/known): K1 the CVODE restart path resumes from a rejected trial solution;
-K2 with CVODE the global error is not bounded by 100*tol for -cvode_order <= 4 or for many chained integrations.
-Both trigger classes are excluded BY CONSTRUCTION from the accuracy clauses (exact solution, path independence) and
+K2 with CVODE the global error is not bounded by 100*tol for -cvode_order <= 4 or for many chained integrations
+(20 incremental steps with the default order: 167*tol; the accuracy clauses are asserted up to ACC_MAX_CHAINED = 2, where
+the largest ratio seen is 47 - a factor 2 of head room).  Both trigger classes are excluded BY CONSTRUCTION from the accuracy clauses (exact solution, path independence) and
 counted (`excluded_known:*`); ways in those classes are still run and checked for every clause that does not
 involve the tolerance (non-negative amounts, solute balance, KIN_DELTA, time bookkeeping).
 
@@ -66,12 +67,12 @@ ASSUMPTIONS = ["-tol is an absolute tolerance in moles of reaction per internal 
                "construction from the accuracy clauses and re-reported from replays/C12/known",
                "library-rate set-ups stay in the smooth regime of their rate laws (no exhaustion of the electron acceptor / reactant)"]
 TECHNIQUE = "property-based testing (Hypothesis): closed-form reference model + multi-path differential (partition / incremental / integrator / host)"
-LEVEL_TEXT = ("Exploration: about a thousand (quick) / ten thousand (thorough) generated rate problems per run are integrated 2-3 different "
+LEVEL_TEXT = ("Exploration: about 2 600 (quick) / 88 000 (thorough) generated rate problems per run are integrated 2-3 different "
               "ways each and compared with the exact solution, with each other, with the solute balance and with the time bookkeeping; no "
               "exhaustive claim. CVODE configurations inside the two known findings are only checked for the tolerance-free clauses.")
 FLOORS = {"quick": 300, "thorough": 3000}
 SHARDS = {"quick": 4, "thorough": 4}
-BUDGET = {"quick": (400, 40), "thorough": (5000, 500), "replay": (1, 1)}   # (closed-form, library) cases per shard
+BUDGET = {"quick": (300, 30), "thorough": (5000, 500), "replay": (1, 1)}   # (closed-form, library) cases per shard
 
 SALTS = {"NaCl": {"Na": 1, "Cl": 1}, "KBr": {"K": 1, "Br": 1}, "LiCl": {"Li": 1, "Cl": 1}, "KNO3": {"K": 1, "N": 1},
          "NaBr": {"Na": 1, "Br": 1}, "LiBr": {"Li": 1, "Br": 1}, "KCl": {"K": 1, "Cl": 1}, "NaNO3": {"Na": 1, "N": 1}}
@@ -79,7 +80,7 @@ ELS = ["Na", "K", "Li", "Cl", "Br", "N"]
 SOLNAME = {"N": "N(5)"}
 TOLS = [1e-6, 1e-7, 1e-8, 1e-9, 1e-10, 1e-11, 1e-12]
 ACC_MAX_CHAINED = 2          # CVODE (order 5, no restart): accuracy clauses asserted up to this many chained integrations
-NO_RESTART_STEPS = 1000      # -cvode_steps >= this never reaches the restart path in the generated domain (probe: <= 1000 steps needed)
+NO_RESTART_STEPS = 5000      # -cvode_steps >= this never reaches the restart path in the generated domain (probe: order 5 needs <= 1000 steps)
 
 
 def prepare(tier):
